@@ -981,12 +981,17 @@ class KconfigGrammar:
                 self.parser.kconfig.report.add_ignore_line(line)
 
             quote = None  # Tracks if we're inside a quote
+            escaped = False  # Previous character inside a quote was an unescaped backslash
             result = []
 
             for char in line:
                 if quote:
-                    # Close the quote if we encounter a matching quote character
-                    if char == quote:
+                    # Close the quote if we encounter a matching quote character (not a backslash-escaped one)
+                    if escaped:
+                        escaped = False
+                    elif char == "\\":
+                        escaped = True
+                    elif char == quote:
                         quote = None
                     result.append(char)
                 elif char in {'"', "'"}:
